@@ -393,7 +393,7 @@ def obligations(tier, seed):
     dir_offs = list(range(32)) if not q else [0, 3, 15, 16, 17, 18, 28, 29, 30, 31]
     par_offs = list(range(48)) if not q else [0, 16, 19, 24, 27, 36, 40, 41, 42, 44, 45]
     for mode in range(7):
-        key = q and mode != 0                    # quick: every mode on the bytes that steer the audio window, mode 0 on the whole quick list
+        key = mode != 0                          # every mode on the bytes that steer the audio window; mode 0 on the whole list (quick: a subset)
         for area, offs in ((0, [3, 28, 30] if key else dir_offs), (1, [18, 19, 26, 27, 36, 40] if key else par_offs)):
             for off in offs:
                 obs.append(ob(f"C14.roland-byte/mode={mode}/{('directory', 'parameter')[area]}@{off}", "h_roland_byte", [f"area == {area}", f"off == {off}", f"mode == {mode}"],
